@@ -85,37 +85,36 @@ package cmd
 //@ spec addF(a fp64v, b fp64v) fp64v = ite(isNaN(a), b, ite(isNaN(b), a, a + b))
 //@ spec fileVal(tll []TimeSeriesList, i int, k int, j int) fp64v = fp(tll[i][k].values[j])
 //@ spec nsum(tll []TimeSeriesList, k int, j int, n int) rec fp64 = ite(n <= 1, fileVal(tll, 0, k, j), addF(nsum(tll, k, j, n - 1), fileVal(tll, n - 1, k, j)))
-//@ spec sumInputsOK(tll []TimeSeriesList, k int) bool = len(tll) > 0 && (forall i :: 0 <= i && i < len(tll) ==> 0 <= k && k < len(tll[i]) && tll[i][k] != nil
-//@        && len(tll[i][k].values) == len(tll[0][k].values))
+//@ spec sumInputsOK(tll []TimeSeriesList, k int) bool = len(tll) > 0 && (forall i :: 0 <= i && i < len(tll) ==> 0 <= k && k < len(tll[i]) && tsLen(tll[i][k]) == tsLen(tll[0][k]))
 
 //@ func sumTimeSeriesListForArchive
 //@   props C10 C11
 //@   requires len(tsListList) == 0 || sumInputsOK(tsListList, archiveID)
 //@   ensures empty: len(tsListList) == 0 ==> result == nil
-//@   ensures shape: len(tsListList) > 0 ==> result != nil && fresh(result) && result.fromTime == tsListList[0][archiveID].fromTime
-//@                 && result.untilTime == tsListList[0][archiveID].untilTime && result.step == tsListList[0][archiveID].step
-//@                 && len(result.values) == len(tsListList[0][archiveID].values)
+//@   ensures shape: len(tsListList) > 0 ==> result != nil && fresh(result) && result.fromTime == tsFrom(tsListList[0][archiveID])
+//@                 && result.untilTime == tsUntil(tsListList[0][archiveID]) && result.step == tsStep(tsListList[0][archiveID])
+//@                 && len(result.values) == tsLen(tsListList[0][archiveID])
 //@   ensures values: len(tsListList) > 0 ==> forall j :: 0 <= j && j < len(result.values) ==> fp(result.values[j]) == old(nsum(tsListList, archiveID, j, len(tsListList)))
 //@ loop sumTimeSeriesListForArchive#0
-//@   invariant bounds: 0 <= i && i <= len(tsListList) && sumValues.arr > old(top) && len(sumValues) == len(tsListList[0][archiveID].values)
+//@   invariant bounds: 0 <= i && i <= len(tsListList) && sumValues.arr > old(top) && len(sumValues) == tsLen(tsListList[0][archiveID])
 //@   invariant done: i > 0 ==> forall j :: 0 <= j && j < len(sumValues) ==> fp(sumValues[j]) == old(nsum(tsListList, archiveID, j, i))
 //@ loop sumTimeSeriesListForArchive#1
-//@   invariant bounds: 0 <= j && j <= len(sumValues) && 0 <= i && i < len(tsListList) && sumValues.arr > old(top) && len(sumValues) == len(tsListList[0][archiveID].values)
+//@   invariant bounds: 0 <= j && j <= len(sumValues) && 0 <= i && i < len(tsListList) && sumValues.arr > old(top) && len(sumValues) == tsLen(tsListList[0][archiveID])
 //@   invariant done: forall q :: 0 <= q && q < j ==> fp(sumValues[q]) == old(nsum(tsListList, archiveID, q, i + 1))
 //@   invariant rest: i > 0 ==> forall q :: j <= q && q < len(sumValues) ==> fp(sumValues[q]) == old(nsum(tsListList, archiveID, q, i))
 //@   invariant cur: mention(old(nsum(tsListList, archiveID, j, i + 1)))
 
 //@ func sumTimeSeriesListList
 //@   props C10 C11
-//@   requires len(tsListList) == 0 || forall k :: 0 <= k && k < len(tsListList[0]) ==> tsListList[0][k] != nil && sumInputsOK(tsListList, k)
+//@   requires len(tsListList) == 0 || forall k :: 0 <= k && k < len(tsListList[0]) ==> tsLen(tsListList[0][k]) >= 0 && sumInputsOK(tsListList, k)
 //@   ensures empty: len(tsListList) == 0 ==> len(result) == 0
 //@   ensures shape: len(tsListList) > 0 ==> len(result) == len(tsListList[0]) && fresh(result)
-//@   ensures each: len(tsListList) > 0 ==> forall k :: 0 <= k && k < len(result) ==> result[k] != nil && result[k].fromTime == tsListList[0][k].fromTime
-//@                 && result[k].untilTime == tsListList[0][k].untilTime && result[k].step == tsListList[0][k].step && len(result[k].values) == len(tsListList[0][k].values)
+//@   ensures each: len(tsListList) > 0 ==> forall k :: 0 <= k && k < len(result) ==> result[k] != nil && result[k].fromTime == tsFrom(tsListList[0][k])
+//@                 && result[k].untilTime == tsUntil(tsListList[0][k]) && result[k].step == tsStep(tsListList[0][k]) && len(result[k].values) == tsLen(tsListList[0][k])
 //@ loop sumTimeSeriesListList#0
 //@   invariant bounds: 0 <= archiveID && archiveID <= len(sumTsList) && len(sumTsList) == len(tsListList[0]) && sumTsList.arr > old(top)
-//@   invariant each: forall k :: 0 <= k && k < archiveID ==> sumTsList[k] != nil && sumTsList[k].fromTime == tsListList[0][k].fromTime
-//@                 && sumTsList[k].untilTime == tsListList[0][k].untilTime && sumTsList[k].step == tsListList[0][k].step && len(sumTsList[k].values) == len(tsListList[0][k].values)
+//@   invariant each: forall k :: 0 <= k && k < archiveID ==> sumTsList[k] != nil && sumTsList[k].fromTime == tsFrom(tsListList[0][k])
+//@                 && sumTsList[k].untilTime == tsUntil(tsListList[0][k]) && sumTsList[k].step == tsStep(tsListList[0][k]) && len(sumTsList[k].values) == tsLen(tsListList[0][k])
 
 //@ func filterPointsByTimeRange
 //@   props C18
@@ -366,3 +365,56 @@ package cmd
 //@   props C10 C11 C12 C16
 //@   ensures none: result1 != nil ==> len(result0) == 0
 //@   ensures fresh: len(result0) == 0 || fresh(result0)
+
+// ---------------------------------------------------------------- sum over files (C10, C16)
+
+//@ func sumWhisperFileLocal
+//@   props C10 C16 C13
+//@   requires now != 0 && now - from <= 2147483647
+//@   modifies ghost(nopen, 0), ghost(nlocked, 0)
+//@   ensures no_leak: ghost(nopen, 0) == old(ghost(nopen, 0)) && ghost(nlocked, 0) == old(ghost(nlocked, 0))
+//@   ensures ok: result2 == nil ==> listOK(result0, result1) && allShaped(result1) && allNonNil(result1)
+//@   ensures failed: result2 != nil ==> result0 == nil && len(result1) == 0
+//@ loop sumWhisperFileLocal#0
+//@   invariant bounds: 0 <= iter && iter <= len(srcFilenames) && len(hList) == len(srcFilenames) && len(tsListList) == len(srcFilenames) && hList.arr > old(top) && tsListList.arr > old(top) && hList.arr != tsListList.arr
+//@   invariant leak: ghost(nopen, 0) == old(ghost(nopen, 0)) && ghost(nlocked, 0) == old(ghost(nlocked, 0))
+//@   invariant read: egerr(g) == nil ==> forall k :: 0 <= k && k < iter ==> listOK(hList[k], tsListList[k]) && allShaped(tsListList[k])
+//@ loop sumWhisperFileLocal#1
+//@   invariant bounds: 1 <= i && i <= len(hList)
+//@   invariant same: forall k :: 0 <= k && k < i ==> sameLayout(hList[0].archiveInfoList, hList[k].archiveInfoList)
+//@ loop sumWhisperFileLocal#2
+//@   invariant bounds: 1 <= i && i <= len(tsListList)
+//@   invariant same: forall k :: 1 <= k && k < i ==> forall a :: 0 <= a && a < len(tsListList[0]) ==> sameShape(tsListList[0][a], tsListList[k][a])
+
+//@ func sumWhisperFileRemote
+//@   props C10 C12 C16
+//@   ensures ok: result2 == nil ==> listOK(result0, result1) && allShaped(result1) && allNonNil(result1)
+//@   ensures failed: result2 != nil ==> result0 == nil && len(result1) == 0
+
+//@ func sumWhisperFile
+//@   props C10 C11 C12 C16
+//@   requires now != 0 && now - from <= 2147483647
+//@   modifies ghost(nopen, 0), ghost(nlocked, 0)
+//@   ensures no_leak: ghost(nopen, 0) == old(ghost(nopen, 0)) && ghost(nlocked, 0) == old(ghost(nlocked, 0))
+//@   ensures ok: result2 == nil ==> listOK(result0, result1) && allShaped(result1) && allNonNil(result1)
+//@   ensures failed: result2 != nil ==> result0 == nil && len(result1) == 0
+
+//@ func (*SumCommand).execute
+//@   props C10 C16
+//@   requires c != nil
+//@   assume now != 0 && now - c.From <= 2147483647 at until
+//@   modifies ghost(nopen, 0), ghost(nlocked, 0)
+//@   ensures no_leak: ghost(nopen, 0) == old(ghost(nopen, 0)) && ghost(nlocked, 0) == old(ghost(nlocked, 0))
+//@ loop (*SumCommand).execute#0
+//@   invariant bounds: 0 <= iter && iter <= len(items)
+//@   invariant leak: ghost(nopen, 0) == old(ghost(nopen, 0)) && ghost(nlocked, 0) == old(ghost(nlocked, 0))
+
+// ---------------------------------------------------------------- copy (C08, C11, C13, C16)
+
+//@ func openOrCreateCopyDestFile
+//@   props C08 C11 C13 C16
+//@   requires srcHeader != nil
+//@   modifies srcHeader.archiveInfoList[0:len(srcHeader.archiveInfoList)], ghost(nopen, 0), ghost(nlocked, 0)
+//@   ensures ok: result1 == nil ==> result0 != nil && fresh(result0) && handleLive(result0) && fresh(result0.file) && fresh(result0.fileBuf)
+//@                 && ghost(nopen, 0) == old(ghost(nopen, 0)) + 1 && ghost(nlocked, 0) == old(ghost(nlocked, 0)) + ghost(locked, result0.file)
+//@   ensures no_leak: result1 != nil ==> result0 == nil && ghost(nopen, 0) == old(ghost(nopen, 0)) && ghost(nlocked, 0) == old(ghost(nlocked, 0))
